@@ -206,6 +206,10 @@ def monitor(case: str, out: str) -> list[str]:
             a, b = f["pre"].split("/"), f["post"].split("/")
             which = [n for n, x, y in zip(("state", "metrics-scope", "task-group"), a, b) if x != y]
             fails.add("context.not-restored:" + "+".join(which))
+        if f.get("bodyend", "ok") != "ok" and f["left"] == "ok":
+            # whatever else happened: a body that ended with an exception never turns into a normal return
+            # (a disposable's `__aexit__` returning True has no say in a scope)
+            fails.add("context.body-exception-swallowed")
         cleanup_ok = all(x == "ok" for x in f["dened"]) and all(x == "ok" for x in f["dexed"])
         if cleanup_ok and "bodyend" in f and not f["disturbed"]:
             if f["left"] != f["bodyend"] or (f["left"] != "ok" and f["same"] != "1"):
